@@ -719,5 +719,11 @@ func (e *Engine) ReplayPinned(cfg *EntryCfg, v *Violation) (bool, string) {
 			return true, fmt.Sprintf("pinned re-execution violated %s again (cross-solver checks: %d, disagreements: %d)", v.Label, sol.Stats.CrossChecks, sol.Stats.CrossDiffs)
 		}
 	}
+	if os.Getenv("VRF_DEBUG_PINNED") != "" {
+		for _, a := range pr.Asserts {
+			fmt.Fprintf(os.Stderr, "pinned: %s %s %s notes=%v\n", a.Label, a.Verdict, a.Where, a.Notes)
+		}
+		fmt.Fprintf(os.Stderr, "pinned: decisions want=%v got=%v\n", v.Decisions, pr.Decisions)
+	}
 	return false, fmt.Sprintf("pinned re-execution ended %s (%s) without violating %s", pr.End, pr.Msg, v.Label)
 }
